@@ -317,5 +317,5 @@ func init() {
 	register(&Family{Name: "c02-perms", Enumerated: true, Count: c02EnumCount, Gen: genC02Enum, New: func() any { return &C02Scenario{} }, Run: runC02, Policy: rtb})
 	register(&Family{Name: "c02-sampled", Count: func(tier string) int { return map[string]int{"quick": 3000, "thorough": 200000}[tier] },
 		Gen: genC02Sampled, New: func() any { return &C02Scenario{} }, Run: runC02, Policy: rtb})
-	plans["C02"] = []string{"c02-perms", "c02-sampled"}
+	plans["C02"] = []string{"c02-perms", "c02-sampled", "c02-sess"}
 }
